@@ -14,8 +14,12 @@ import importlib
 import os
 import sys
 import traceback
+import warnings
+
+warnings.simplefilter("ignore")
 
 os.environ.setdefault("MPLBACKEND", "Agg")
+os.environ.setdefault("PYTHONWARNINGS", "ignore")
 os.environ.setdefault("OMP_NUM_THREADS", "1")
 os.environ.setdefault("OPENBLAS_NUM_THREADS", "1")
 
